@@ -9,10 +9,10 @@
 
 #include "Channel.h"
 
-ezc3d::DataNS::AnalogsNS::Channel::Channel(const std::string &name) :
-    _name(name)
+ezc3d::DataNS::AnalogsNS::Channel::Channel(const std::string &name)
 {
-
+    // Through the setter, so the name is stored without its trailing spaces, as when it is given later
+    this->name(name);
 }
 
 ezc3d::DataNS::AnalogsNS::Channel::Channel(const ezc3d::DataNS::AnalogsNS::Channel &channel) :
